@@ -478,6 +478,62 @@ def _wordwise_alt(crate, I, b, tr, backs):
     return None
 
 
+def _wordwise_for_each(crate, I, b, tr):
+    """internal iteration over the words: `self.data.iter_mut().zip(rhs.data.iter()).for_each(|(a, b)| *a op= *b)` for
+    the assigning operators, `self.data.iter_mut().for_each(|x| *x = !*x)` for Not.  The receiver pairs word i of self
+    with word i of rhs (both whole arrays), the closure applies the operator of the trait to exactly that pair"""
+    if not (tr.endswith("Assign") or tr == "Not"):
+        return None
+    selfd = ("field", ("deref", ("param", 1, I.names.get(1))), 0) if tr != "Not" else None
+    desc = None
+    for st in I.final_states:
+        fes = [e for e in st.event_list() if e.kind == "call" and e.extra.get("name") == "for_each"]
+        if len(fes) != 1 or len(fes[0].args) < 2:
+            return None
+        rcv, clo = fes[0].args[0], fes[0].args[1]
+        cb = crate.by_key.get(clo[1][1]) if clo[0] == "agg" and isinstance(clo[1], tuple) and clo[1][0] == "closure" else None
+        if cb is None:
+            return None
+
+        def src(t, mut):
+            """the array a (mutable / shared) whole-array iterator or reference walks"""
+            if isinstance(t, tuple) and t and t[0] == "call" and str(t[1]).rsplit("::", 1)[-1] in (("iter_mut",) if mut else ("iter", "into_iter")):
+                t = [x for x in t[2] if not (isinstance(x, tuple) and x and x[0] == "mem")][0]
+            if isinstance(t, tuple) and t and t[0] == "ref" and t[1][0] == "field" and t[1][2] == 0:
+                return t[1][1]
+            return None
+
+        Ic = util.analyse(cb)
+        item = ("param", 2, Ic.names.get(2))
+        if tr == "Not":
+            base = src(rcv, True)
+            if base is None or base[0] not in ("deref", "local"):
+                return None
+            for cst in Ic.final_states:
+                stores = [e for e in cst.event_list() if e.kind == "store"]
+                if not (len(stores) == 1 and stores[0].place == ("deref", item) and stores[0].val == ("un", "Not", ("load", ("m0",), ("deref", item)))):
+                    return None
+            desc = "Not applied to every word through iter_mut().for_each"
+            continue
+        if not (isinstance(rcv, tuple) and rcv and rcv[0] == "call" and str(rcv[1]).endswith("Iterator::zip")):
+            return None
+        za = [x for x in rcv[2] if not (isinstance(x, tuple) and x and x[0] == "mem")]
+        if len(za) != 2 or src(za[0], True) != ("deref", ("param", 1, I.names.get(1))) or src(za[1], False) != ("deref", ("param", 2, I.names.get(2))):
+            return None
+        for cst in Ic.final_states:
+            cev = [e for e in cst.event_list() if e.kind in ("call", "store")]
+            ops = [e for e in cev if e.kind == "call" and (e.extra.get("trait") or "").split("::")[-1] == tr]
+            if len(cev) != 1 or len(ops) != 1:
+                return None
+            a0, a1 = ops[0].args[0], ops[0].args[1]
+            lhs_ok = a0 in (("proj", 0, item), ("ref", ("deref", ("proj", 0, item))))
+            rhs_ok = a1 in (("proj", 1, item), ("load", ("m0",), ("deref", ("proj", 1, item))), ("ref", ("deref", ("proj", 1, item))))
+            if not (lhs_ok and rhs_ok):
+                return None
+        desc = "%s over iter_mut(self.data).zip(rhs.data).for_each" % tr
+    return desc
+
+
 def check(col, prog, tier, profile, fixture=None):
     crate = prog.crate(fixture or "rlib_bitset")
     sfx = "" if profile == "dev" else "@" + profile
@@ -486,7 +542,7 @@ def check(col, prog, tier, profile, fixture=None):
     f0 = util.fields_of(adt)[0]
     if not f0["ty"].startswith("[u64;"):
         raise Anchor("Bitset is expected to hold [u64; N]")
-    helpers = util.private_helpers(crate, "Bitset") + [f for f in crate.bodies if not f.is_closure and f.kind == "Fn" and f.container is None and f.vis != "pub" and not util.self_recursive(f)]
+    helpers = util.private_helpers(crate, "Bitset") + [f for f in crate.bodies if not f.is_closure and f.kind == "Fn" and f.container is None and f.vis != "pub" and not util.self_recursive(f)] + util.private_type_helpers(crate)
     newb = util.opt_body(crate, "Bitset::<N>::new")
     An = util.analyser(helpers + ([newb] if newb is not None else []))
     An3 = util.analyser(helpers + ([newb] if newb is not None else []), features=("fncall", "mutlocal"))
@@ -567,7 +623,9 @@ def check(col, prog, tier, profile, fixture=None):
             nb = b_
     if nb is None:
         raise Anchor("BitsIter::next not found")
-    I = util.analyser(util.private_helpers(crate, "BitsIter", exclude=[nb]) + [f for f in crate.bodies if not f.is_closure and f.kind == "Fn" and f.container is None and f.vis != "pub" and not util.self_recursive(f)])(nb)
+    # (a read-only checker of the iterator - `check_yield(&self, bit)`, loops included - stays an opaque call: it returns
+    # nothing, takes nothing by &mut and cannot move the cursor)
+    I = util.analyser([h_ for h_ in util.private_helpers(crate, "BitsIter", exclude=[nb]) + [f for f in crate.bodies if not f.is_closure and f.kind == "Fn" and f.container is None and f.vis != "pub" and not util.self_recursive(f)] + util.private_type_helpers(crate, exclude=[nb]) if not util.is_readonly_check(crate, h_)], features=("comb",))(nb)
     okdec = True
     nsh = 0
     for st in I.all_end_states():
@@ -690,6 +748,10 @@ def check(col, prog, tier, profile, fixture=None):
                 col.violation("K3" + sfx, key, b.loc(), "%s does not apply the %s word operator to words i of both operands over all N words: %s" % (b.path, tr, desc))
             continue
         if not backs:
+            fe_ok = _wordwise_for_each(crate, I, b, tr)
+            if fe_ok:
+                col.ok("K3" + sfx, b.loc(), key, fe_ok)
+                continue
             col.violation("K3" + sfx, key, b.loc(), "%s has no loop over the words" % b.path)
             continue
         st = backs[0]
